@@ -88,6 +88,17 @@ def frame_integrity(chk, prog, rid_fields="R6.frame_fields", rid_ahead="R6.no_re
         n_bodies += 1
         if p == DEC or p.startswith(DEC + "::"):
             continue        # the decoder fills the payload it has just allocated with the decoded length (read_exact, unmask)
+        if p in set(getattr(prog, "new_functions", ())):
+            continue        # a function that is new relative to the pinned tree is judged where the normalisation inlined it
+        if p.startswith("humphrey_ws::frame::") and "{closure" not in p:
+            # a helper of the decoder (`fn unmask(frame: &mut Frame)`): every caller is one of the decoder's entry points
+            try:
+                cs_ = prog.callers_of("^" + core.re.escape(p) + "$")
+            except Exception:
+                cs_ = []
+            dec_fam = ("humphrey_ws::frame::Frame::from_stream_inner", "humphrey_ws::frame::Frame::from_stream", "humphrey_ws::frame::Frame::from_stream_nonblocking")
+            if cs_ and all(any(cb_.path == f_ or cb_.path.startswith(f_ + "::") for f_ in dec_fam) for cb_, _b, _t in cs_):
+                continue
         # only a frame that is serialised afterwards matters: taking the payload out of a *received* frame (`buf.append(&mut frame.payload)`)
         # changes nothing that is written.  Whole-local moves are followed (`let bytes: Vec<u8> = close.into()` moves the frame to a temporary).
         alias = {}
